@@ -13,7 +13,9 @@ RULE = (
     "Circle, Cylinder, Cone over lattice centres, radii drawn from floats in (0.25, 8), resolutions n in 3..24 and "
     "axis directions stratified into: the 26 lattice directions x lengths {1/2,1,2,3}, random float directions, "
     "near-axis directions (one component +-1, the others within +-0.12, i.e. on both sides of the library's 0.1 rad "
-    "switch) for each of the six axis ends; Sphere over n1 in 3..12, n2 in 2..5; Parallelogram/Parallelepiped over "
+    "switch) for each of the six axis ends; everyday parameters (radius on a 1/8 grid, round n); radii adjusted by "
+    "< 1e-9 so that one vertex coordinate lies within an ulp of a rounding boundary of the 10-digit Point hash; an "
+    "axis Vector object reused after an earlier build and an in-place edit; Sphere over n1 in 3..12, n2 in 2..5; Parallelogram/Parallelepiped over "
     "independent lattice edge vectors. Oracle (closed forms in floating point, relative 1e-9): vertex/edge/face "
     "counts, every vertex at distance r from the axis/centre and in the right plane (1e-9 absolute x scale), equal "
     "angular steps 2pi/n around the centre, Sphere rings at latitudes i*pi/(2 n2), apex / top circle at centre + "
@@ -84,6 +86,43 @@ def ring_check(pts, c, axis, r, n, plane_offset, what, facts):
         raise Fail("%s: vertices do not occupy all n angular positions" % what, {"angles": angs[:6], "step": step}, facts)
 
 
+def boundary_radius(G, c, axis_f, r0, n, spec):
+    """a radius within 1e-9 of r0 for which one coordinate of one vertex of the (top or bottom) circle sits within
+    an ulp of a decimal rounding boundary of the 10-digit Point hash.  Any radius is a valid input; this one makes
+    the vertex bookkeeping depend on every computation of that vertex giving the same float."""
+    vi, ci, top = spec
+    cf = [float(x) for x in c]
+    if top:
+        cf = [cf[i] + axis_f[i] for i in range(3)]
+
+    def coord(r):
+        pts = G.get_circle_point_list(G.Point(*cf), G.Vector(*axis_f), r, n)
+        p = pts[vi % n]
+        return (p.x, p.y, p.z)[ci % 3]
+
+    try:
+        x0 = coord(r0)
+        coef = (x0 - cf[ci % 3]) / r0
+        if abs(coef) < 0.05:
+            return r0
+        target = (math.floor(x0 * 1e10) + 0.5) * 1e-10
+        r1 = r0 + (target - x0) / coef
+        # polish: step r by ulps until the coordinate is as close to the boundary as floats allow
+        best, best_d = r1, abs(coord(r1) - target)
+        for _ in range(40):
+            x = coord(best)
+            if x == target:
+                break
+            cand = math.nextafter(best, math.inf if (target - x) / coef > 0 else -math.inf)
+            d = abs(coord(cand) - target)
+            if d > best_d:
+                break
+            best, best_d = cand, d
+        return best if 0.25 < best < 8 else r0
+    except Exception:
+        return r0
+
+
 def check(case, ctx):
     G = lib()
     kind = case[0]
@@ -96,9 +135,13 @@ def check(case, ctx):
         return v
 
     if kind in ("Circle", "Cylinder", "Cone"):
-        _k, c, axis, r, n, tag = case
+        _k, c, axis, r, n, tag = case[:6]
+        pre_axis = case[6] if len(case) > 6 else None
         r = float(r)
         axis_f = fvec3(axis)
+        if len(case) > 7 and case[7] is not None:
+            r = boundary_radius(G, c, axis_f, r, n, case[7])
+            ctx.cls("radius-on-hash-rounding-boundary")
         cls = "%s/%s" % (kind, tag)
         ctx.cls(cls)
         if tuple(axis_f) not in ((1.0, 0.0, 0.0), (0.0, 1.0, 0.0), (0.0, 0.0, 1.0)):
@@ -107,7 +150,15 @@ def check(case, ctx):
         facts["axis"] = axis_f
         facts["n"] = n
         cP = B.pt(c)
-        aV = G.Vector(*axis_f)
+        if pre_axis is not None:
+            # the same Vector object was used for an earlier build with another axis and then edited in place
+            # (documented coordinate setting): the result must depend on its current value only
+            aV = G.Vector(*fvec3(pre_axis))
+            B.call(lambda: G.Circle(B.pt(c), aV, r, n) if kind == "Circle" else (G.Cylinder(B.pt(c), r, aV, n) if kind == "Cylinder" else G.Cone(B.pt(c), r, aV, n)))
+            aV[0], aV[1], aV[2] = axis_f
+            ctx.cls("reused-axis-vector")
+        else:
+            aV = G.Vector(*axis_f)
         before = snapshot_args([cP, aV])
         cf = X.fl(c)
         H = B._fnorm(axis_f)
@@ -297,7 +348,24 @@ def round_case(draw, kind, mode):
     axis, tag = draw(axis_dir(mode))
     r = draw(radii)
     n = draw(st.integers(3, 24))
+    if mode == "lattice" and draw(st.integers(0, 2)) == 0:
+        # everyday parameters: radius on a 1/8 grid, n a "round" resolution
+        r = draw(st.integers(2, 60)) / 8.0
+        n = draw(st.sampled_from((4, 6, 8, 10, 12, 16, 20, 24)))
+    if draw(st.integers(0, 3)) == 0:
+        pre, _t = draw(axis_dir(draw(st.sampled_from(("lattice", "random")))))
+        return (kind, c, axis, r, n, tag, pre)
     return (kind, c, axis, r, n, tag)
+
+
+@st.composite
+def boundary_case(draw, kind):
+    c = draw(gen.lattice_point(6))
+    axis, tag = draw(axis_dir(draw(st.sampled_from(("lattice", "lattice", "random")))))
+    r = draw(st.integers(3, 60)) / 8.0
+    n = draw(st.sampled_from((3, 4, 5, 6, 8, 12, 16, 24)))
+    spec = (draw(st.integers(0, 23)), draw(st.integers(0, 2)), draw(st.booleans()))
+    return (kind, c, axis, r, n, "boundary-radius", None, spec)
 
 
 @st.composite
@@ -327,6 +395,8 @@ def strata(tier):
     for kind, n in (("Circle", 160), ("Cylinder", 60), ("Cone", 80)):
         for mode in ("lattice", "random", "near-axis"):
             out.append(Stratum("%s/%s" % (kind, mode), "hyp", round_case(kind, mode), n if q else n * 30))
+    for kind in ("Circle", "Cylinder", "Cone"):
+        out.append(Stratum("%s/boundary-radius" % kind, "hyp", boundary_case(kind), 60 if q else 2000))
     out.append(Stratum("Sphere", "hyp", sphere_case(), 48 if q else 1500))
     out.append(Stratum("Parallelogram", "hyp", pgram_case(), 200 if q else 6000))
     out.append(Stratum("Parallelepiped", "hyp", ppd_case(), 150 if q else 5000))
